@@ -271,3 +271,8 @@ var sub = vk.Register(&vk.Sub[Case]{Name: "files", Gen: gen, Check: check, NonTr
 func TestSub_files(t *testing.T) { vk.RunRapid(t, sub) }
 
 func TestReplay(t *testing.T) { vk.Replay(t) }
+
+// native coverage-guided fuzzing over the same generator and oracle (thorough tier)
+var subFuzz = vk.Register(&vk.Sub[Case]{Name: "files_fuzz", Gen: gen, Check: check})
+
+func FuzzSub_files_fuzz(f *testing.F) { vk.RunFuzz(f, subFuzz) }
